@@ -2,8 +2,6 @@ package protocol
 
 import (
 	"math/rand"
-	"os"
-	"reflect"
 	"testing"
 )
 
@@ -20,173 +18,8 @@ var vProtoTypes = map[string]func() interface{}{
 	"SubscribeCommand": func() interface{} { return &SubscribeCommand{} }, "SubscribeResultCommand": func() interface{} { return &SubscribeResultCommand{} },
 }
 
-type vCodec struct {
-	obj interface{}
-	buf func(old []byte) []byte // installs a 64-byte buffer initialised from old and returns it
-	enc func(buf []byte) error
-	dec func(buf []byte) error
-}
-
-func vReflectCodec(obj interface{}) *vCodec {
-	m := reflect.ValueOf(obj)
-	call := func(name string, buf []byte) error {
-		res := m.MethodByName(name).Call([]reflect.Value{reflect.ValueOf(buf)})
-		if e, ok := res[0].Interface().(error); ok && e != nil {
-			return e
-		}
-		return nil
-	}
-	return &vCodec{obj: obj, buf: func(old []byte) []byte { return append([]byte{}, old...) },
-		enc: func(b []byte) error { return call("Encode", b) }, dec: func(b []byte) error { return call("Decode", b) }}
-}
-
-func vWellFormedName(b []byte, cap int) bool {
-	return len(b) <= cap && (len(b) == 0 || (b[0] != 0 && b[len(b)-1] != 0))
-}
-
-// vCodecCase runs the real Encode / Decode of one layout on generated inputs, prints what they did
-// (for the differential against the generated table) and evaluates C14's round-trip statement directly.
-func vCodecCase(r *rand.Rand, out *vOut, L *vLayout, mk func() *vCodec) {
-	c := mk()
-	rv := reflect.ValueOf(c.obj).Elem()
-	// ---- encode
-	fields := make([][]byte, len(L.Fields))
-	wf := true
-	for i, f := range L.Fields {
-		switch f.Kind {
-		case "str":
-			fields[i] = vRandName(r, f.Width)
-			wf = wf && vWellFormedName(fields[i], f.Width)
-		case "lpstr":
-			fields[i] = vRandName(r, f.Width)
-			wf = wf && len(fields[i]) <= f.Width
-		default:
-			fields[i] = vRandBytes(r, f.Width)
-		}
-	}
-	// a length-prefixed string round-trips when its length field holds the length (what the constructor does)
-	for i, f := range L.Fields {
-		if f.Kind == "lpstr" && i > 0 && r.Intn(4) != 0 {
-			fields[i-1] = []byte{byte(len(fields[i]))}
-		} else if f.Kind == "lpstr" {
-			wf = wf && i > 0 && len(fields[i-1]) == 1 && int(fields[i-1][0]) == len(fields[i])
-		}
-	}
-	for i, f := range L.Fields {
-		vSetField(vFieldByPath(rv, f.Name), fields[i])
-	}
-	old := vRandBytes(r, 64)
-	buf := c.buf(old)
-	obs := ""
-	func() {
-		defer func() {
-			if e := recover(); e != nil {
-				obs = "panic"
-			}
-		}()
-		if err := c.enc(buf); err != nil {
-			obs = "err"
-		} else {
-			obs = vHex(buf)
-		}
-	}()
-	encOp := "enc " + L.Name + " " + vHex(old) + " " + vJoinFields(fields)
-	out.emit(encOp, obs)
-	if wf && len(obs) == 128 {
-		// monitor: decode(encode(v)) = v on a fresh object
-		c2 := mk()
-		rv2 := reflect.ValueOf(c2.obj).Elem()
-		b2 := c2.buf(buf)
-		res := ""
-		func() {
-			defer func() {
-				if e := recover(); e != nil {
-					res = "panic"
-				}
-			}()
-			if err := c2.dec(b2); err != nil {
-				res = "err"
-				return
-			}
-			for i, f := range L.Fields {
-				got := vGetField(vFieldByPath(rv2, f.Name), f.Width)
-				if string(got) != string(fields[i]) {
-					res = "field " + f.Name + " decoded as " + vHex(got) + " want " + vHex(fields[i])
-					return
-				}
-			}
-		}()
-		if res != "" {
-			out.monitor("roundtrip:"+L.Name, "encode-then-decode of "+L.Name+" does not return the value: "+res, map[string]string{"op": encOp, "encoded": obs})
-		}
-	} else if wf && obs != "" {
-		out.monitor("encode-refused:"+L.Name, "Encode of a well-formed "+L.Name+" value failed: "+obs, map[string]string{"op": encOp})
-	}
-	// ---- decode of arbitrary bytes (or of what was just encoded, slightly damaged)
-	var in []byte
-	if r.Intn(3) == 0 && len(obs) == 128 {
-		in = append([]byte{}, buf...)
-		if r.Intn(2) == 0 {
-			in[r.Intn(64)] ^= byte(1 << uint(r.Intn(8)))
-		}
-	} else {
-		in = vRandBytes(r, 64)
-	}
-	buf2 := c.buf(in)
-	dobs := ""
-	var got [][]byte
-	func() {
-		defer func() {
-			if e := recover(); e != nil {
-				dobs = "panic"
-			}
-		}()
-		if err := c.dec(buf2); err != nil {
-			dobs = "err"
-			return
-		}
-		got = make([][]byte, len(L.Fields))
-		for i, f := range L.Fields {
-			got[i] = vGetField(vFieldByPath(rv, f.Name), f.Width)
-		}
-		dobs = vJoinFields(got)
-	}()
-	out.emit("dec "+L.Name+" "+vHex(in), dobs)
-	if dobs == "panic" {
-		out.monitor("decode-panic:"+L.Name, "Decode of "+L.Name+" panics on a 64-byte input", map[string]string{"op": "dec " + L.Name + " " + vHex(in)})
-	}
-	// monitor: decode-then-encode reproduces every byte that belongs to an integer / byte-array field
-	if got != nil {
-		b3 := c.buf(make([]byte, 64))
-		ok := true
-		func() {
-			defer func() {
-				if e := recover(); e != nil {
-					ok = false
-				}
-			}()
-			if err := c.enc(b3); err != nil {
-				ok = false
-			}
-		}()
-		if ok {
-			for _, o := range L.FieldOffsets {
-				if b3[o] != in[o] {
-					out.monitor("reencode:"+L.Name, "decode-then-encode of "+L.Name+" changes a defined byte", map[string]interface{}{"op": "dec " + L.Name + " " + vHex(in), "offset": o, "reencoded": vHex(b3)})
-					break
-				}
-			}
-		}
-	}
-}
-
-func TestVerifHarness(t *testing.T) {
-	mode := os.Getenv("VERIF_MODE")
-	if mode == "" {
-		t.Skip("harness only")
-	}
-	switch mode {
-	case "codec":
+func init() {
+	vModes["codec"] = func(t *testing.T) {
 		facts := vLoadFacts()
 		r := rand.New(rand.NewSource(int64(vEnvInt("VERIF_SEED", 1))))
 		n := vEnvInt("VERIF_N", 200)
@@ -202,7 +35,5 @@ func TestVerifHarness(t *testing.T) {
 				vCodecCase(r, out, L, func() *vCodec { return vReflectCodec(mk()) })
 			}
 		}
-	default:
-		vProtocolModes(t, mode)
 	}
 }
